@@ -1,7 +1,7 @@
 (* C01 (c): the tokenizer model (Model/Lexer.v) reports NOTHING on a conforming statement line, for lines of any length.
    Method: one "step" lemma per lexeme class - the first turn of get_next_token on  w ++ r  (r = whatever follows, only its
-   first character constrained) is exactly one token spanning w, in the state `shift |w|` (same diagnostics, same line,
-   column + |w|) - then induction over the lexeme list.
+   first character constrained) cuts exactly one token, leaves exactly r and records no diagnostic (`tok_step`, a view of the
+   step without positions: positions are C09, proved for every text in Proofs/LexMain) - then induction over the lexeme list.
    * identifiers: for ALL identifiers (Proofs/LexRename.lex_ident + the four sub-parsers tried before parse_identifier
      return None on a letter);
    * spaces, brackets, one-character operators: for all continuations, by evaluation with the continuation left symbolic;
